@@ -66,6 +66,8 @@ pub struct IoShared {
     log: Vec<String>,
     cancel: bool,
     read_waiting: bool,
+    io_count: u64,
+    livelock: bool,
 }
 
 type Shared = Rc<RefCell<IoShared>>;
@@ -135,6 +137,16 @@ impl IoShared {
         if self.script_pos < self.script.len() {
             self.script_pos += 1;
         }
+        self.io_count += 1;
+    }
+    /// watchdog: an operation that performs this many I/O calls is looping without bound
+    fn runaway(&mut self) -> bool {
+        if self.io_count > IO_LIMIT {
+            self.livelock = true;
+            self.cancel = true;
+            return true;
+        }
+        false
     }
     fn avail_len(&self) -> usize {
         let now = now_ms();
@@ -231,6 +243,9 @@ impl embedded_io_async::Read for ScriptIo {
         let shared = self.shared.clone();
         let res = core::future::poll_fn(|_cx| {
             let mut s = shared.borrow_mut();
+            if s.runaway() {
+                return Poll::Pending;
+            }
             let (k, amt) = s.next_ev();
             match k {
                 1 => {
@@ -283,6 +298,9 @@ impl embedded_io_async::Write for ScriptIo {
         let shared = self.shared.clone();
         let res = core::future::poll_fn(|_cx| {
             let mut s = shared.borrow_mut();
+            if s.runaway() {
+                return Poll::Pending;
+            }
             let (k, amt) = s.next_ev();
             s.consume();
             match k {
@@ -318,6 +336,9 @@ impl embedded_io_async::Write for ScriptIo {
         let shared = self.shared.clone();
         let res = core::future::poll_fn(|_cx| {
             let mut s = shared.borrow_mut();
+            if s.runaway() {
+                return Poll::Pending;
+            }
             let (k, _) = s.next_ev();
             s.consume();
             match k {
@@ -343,12 +364,14 @@ impl embedded_io_async::Write for ScriptIo {
 
 // ---------------- executor ----------------
 const MAX_WAITS: u64 = 64;
+const IO_LIMIT: u64 = 50_000;
 const STUTTER_MS: u64 = 100;
 /// Poll `fut` to completion under the runner's rules; None = the future was dropped (cancelled).
 fn exec<F: Future>(shared: &Shared, fut: F) -> Option<F::Output> {
     let mut cx = Context::from_waker(Waker::noop());
     let mut fut = pin!(fut);
     let mut spins = 0u64;
+    shared.borrow_mut().io_count = 0;
     loop {
         WAKE_AT.store(u64::MAX, Ordering::SeqCst);
         {
@@ -538,6 +561,8 @@ pub fn run(t: &mut Toks) -> Result<String, Bad> {
         log: Vec::new(),
         cancel: false,
         read_waiting: false,
+        io_count: 0,
+        livelock: false,
     }));
 
     // storage with 'static lifetime for the duration of the case (freed at the end)
@@ -743,6 +768,10 @@ pub fn run(t: &mut Toks) -> Result<String, Bad> {
                     "= pid".into()
                 }
             };
+            if shared.borrow().livelock {
+                shared.borrow_mut().log.push("= FUEL".into());
+                break;
+            }
             shared.borrow_mut().log.push(line);
             // state line
             let sess: &Session<'static> = match &conn {
